@@ -1259,25 +1259,19 @@ def _build_staircase(U, rtol=1e-12, atol=1e-12):
             Rij_inv = np.identity(2, dtype=complex)
             full_Rij_inv = np.identity(n, dtype=complex)
 
-            if rot_idx != n - 2:
-                # The denominator of the transformation is the difference of
-                # absolute values of all columns *up* to this point.
-                sum_of_column = 0
-                for k in range(i):
-                    sum_of_column += pow(np.absolute(running_prod[k, 0]), 2)
-                cf = np.sqrt(1 - sum_of_column)
+            # The denominator of the transformation is the norm of the two entries that
+            # are rotated into each other (everything below them has been zeroed already).
+            # It is computed from these entries: ``sqrt(1 - sum of the entries above)`` is 0
+            # or pure rounding noise when the lower part of the column is (nearly) zero,
+            # and amplifies rounding errors from one recursion level to the next.
+            y, z = running_prod[i, 0], running_prod[j, 0]
+            cf = np.sqrt(np.abs(y) ** 2 + np.abs(z) ** 2)
 
-                y, z = running_prod[i, 0], running_prod[j, 0]
+            if cf > 0:
                 capY, capZ = y / cf, z / cf
 
                 # Build the SU(2) transformation and embed it into the larger matrix
                 Rij_inv = np.array([[np.conj(capY), np.conj(capZ)], [-capZ, capY]])
-            else:
-                # The last transformation, R12 is special and the rotation has
-                # a different form
-                x = U[0, 0]
-                cf = np.sqrt(1 - pow(np.absolute(x), 2))
-                Rij_inv = np.array([[np.conj(x), cf], [-cf, x]])
 
             # Add the transformation to the sequence and update the product
             Rij = Rij_inv.conj().T
